@@ -63,6 +63,13 @@ def gate1(ctx, rule="GATE-1"):
             ok = ("p1.%s" % batch) in it
         ctx.check(ok, rule, "%s::exec validation loop covers the batch" % name, "iterates self.%s" % batch,
                   "the loop around is_valid_value in %s::exec does not iterate self.%s (%s)" % (name, batch, it[:120]), f.loc(), fn=f.name, key="%s|%s|total" % (rule, name))
+        if encl and searched is None:
+            # every element of the batch is validated: no iteration of the innermost loop around the test gets back to the loop header without passing the test
+            from .loops import cycle_without
+            inner = encl[0][1]
+            ctx.check(not cycle_without(f, inner, loops[inner], {vb}), rule, "%s::exec validates every element of the batch" % name, "",
+                      "an iteration of the validation loop of %s::exec can skip Column::is_valid_value (a `continue` or a condition around the test): that value reaches the table "
+                      "unchecked" % name, f.loc(vt["sp"]), fn=f.name, key="%s|%s|every" % (rule, name))
         if muts and outer is not None:
             before = [m for m in muts if vb in cfg.reachable(f, m)]
             skip = [m for m in muts if m in cfg.reachable(f, 0, avoid={outer})]
